@@ -4466,7 +4466,7 @@ func (c *BytecodeCompiler) listOrTuplePattern(typ types.Type, location *position
 
 	var lengthVar *bytecodeLocal
 	if elementBeforeRestCount != -1 {
-		lengthVar = c.defineLocal(fmt.Sprintf("#!listPatternLength%d", c.patternNesting), location)
+		lengthVar = c.defineLocalOverrideCurrentScope(fmt.Sprintf("#!listPatternLength%d", c.patternNesting), location)
 		c.emitSetLocalNoPop(location.StartPos.Line, lengthVar.index)
 	}
 
@@ -4501,7 +4501,7 @@ func (c *BytecodeCompiler) listOrTuplePattern(typ types.Type, location *position
 	}
 
 	if elementBeforeRestCount != -1 {
-		iteratorVar := c.defineLocal(fmt.Sprintf("#!listPatternIterator%d", c.patternNesting), location)
+		iteratorVar := c.defineLocalOverrideCurrentScope(fmt.Sprintf("#!listPatternIterator%d", c.patternNesting), location)
 
 		if restVariableName != "" {
 			// adjust the length variable
